@@ -1,1 +1,153 @@
 // Kani contract harnesses for /repo/arrow-arith/src/numeric.rs (child module: sees private items via super::)
+//
+// Scalar cores of interval arithmetic: the private trait IntervalOp (add, sub, mul_i64) for the three
+// interval types and the helper mul_i32_i64.  Spec side: exact field-wise arithmetic in i64 / i128.
+// Not decided here (n/d): interval_mul_f64 (float rounding cascade), TimestampOp / DateOp (chrono),
+// decimal_op and every `&dyn Datum` dispatcher (DataType / ArrayRef heavy).
+// Stubs: alloc::fmt::format -> spec::stub_format (error messages are not part of any contract).
+use super::*;
+#[path = "/verif/kani/support/spec.rs"]
+mod spec;
+use spec::*;
+
+fn is_ovf<T>(r: &Result<T, ArrowError>) -> bool { matches!(r, Err(ArrowError::ArithmeticOverflow(_))) }
+fn fits32(x: i128) -> bool { x >= i32::MIN as i128 && x <= i32::MAX as i128 }
+fn fits64(x: i128) -> bool { x >= i64::MIN as i128 && x <= i64::MAX as i128 }
+
+// Contract (C12): for all left: i32, right: i64, with exact = left * right computed in i128:
+//   mul_i32_i64(left, right) = Ok(r) <=> i32::MIN <= exact <= i32::MAX, and then r = exact;
+//   otherwise Err(ArithmeticOverflow) - both when the i64 product overflows and when it only fails to
+//   fit i32; never a truncated value.
+// @unit name=mul_i32_i64_exact props=C12 kind=complete fns=mul_i32_i64 timeout=600 tier=thorough was_quick=1 confirmed=0
+#[kani::proof]
+#[kani::stub(alloc::fmt::format, stub_format)]
+fn mul_i32_i64_exact() {
+    let a: i32 = kani::any();
+    let b: i64 = kani::any();
+    let exact = a as i128 * b as i128;
+    let r = mul_i32_i64(a, b);
+    match &r {
+        Ok(v) => assert!(fits32(exact) && *v as i128 == exact),
+        Err(_) => assert!(!fits32(exact) && is_ovf(&r)),
+    }
+    kani::cover!(r.is_ok() && a > 1 && b > 1);
+    kani::cover!(!fits64(exact));
+    kani::cover!(fits64(exact) && !fits32(exact));
+    kani::cover!(r.is_ok() && exact < -1);
+    std::mem::forget(r);
+}
+
+// Contract (C12): IntervalYearMonthType (native i32 = months): add / sub = exact sum / difference in
+// i64 if it fits i32, else Err(ArithmeticOverflow); mul_i64 = exact product in i128 if it fits i32,
+// else Err(ArithmeticOverflow).  No result is ever a wrapped value.
+// @unit name=interval_ym_ops props=C12 kind=complete fns=IntervalOp<IntervalYearMonthType>::add,IntervalOp<IntervalYearMonthType>::sub,IntervalOp<IntervalYearMonthType>::mul_i64 timeout=600 tier=thorough was_quick=1 confirmed=0
+#[kani::proof]
+#[kani::stub(alloc::fmt::format, stub_format)]
+fn interval_ym_ops() {
+    let a: i32 = kani::any();
+    let b: i32 = kani::any();
+    let k: i64 = kani::any();
+    let (s, d, p) = (a as i128 + b as i128, a as i128 - b as i128, a as i128 * k as i128);
+    let rs = <IntervalYearMonthType as IntervalOp>::add(a, b);
+    let rd = <IntervalYearMonthType as IntervalOp>::sub(a, b);
+    let rp = <IntervalYearMonthType as IntervalOp>::mul_i64(a, k);
+    match &rs { Ok(v) => assert!(fits32(s) && *v as i128 == s), Err(_) => assert!(!fits32(s) && is_ovf(&rs)) }
+    match &rd { Ok(v) => assert!(fits32(d) && *v as i128 == d), Err(_) => assert!(!fits32(d) && is_ovf(&rd)) }
+    match &rp { Ok(v) => assert!(fits32(p) && *v as i128 == p), Err(_) => assert!(!fits32(p) && is_ovf(&rp)) }
+    kani::cover!(!fits32(s));
+    kani::cover!(!fits32(d) && fits32(s));
+    kani::cover!(fits32(p) && k < -1 && a > 1);
+    kani::cover!(!fits32(p));
+    std::mem::forget((rs, rd, rp));
+}
+
+// Contract (C12): IntervalDayTimeType (days: i32, milliseconds: i32): add / sub are field-wise exact
+// (each field's exact sum / difference in i64) - Ok <=> BOTH fields fit i32, and then each output field
+// is the exact value; otherwise Err(ArithmeticOverflow); no field silently wraps and no field leaks
+// into the other.  mul_i64(v, k): each field times k exactly (i128), Ok <=> both products fit i32.
+// @unit name=interval_dt_ops props=C12 kind=complete fns=IntervalOp<IntervalDayTimeType>::add,IntervalOp<IntervalDayTimeType>::sub,IntervalOp<IntervalDayTimeType>::mul_i64 timeout=900 tier=thorough was_quick=1 confirmed=0
+#[kani::proof]
+#[kani::stub(alloc::fmt::format, stub_format)]
+fn interval_dt_ops() {
+    let a = IntervalDayTime::new(kani::any(), kani::any());
+    let b = IntervalDayTime::new(kani::any(), kani::any());
+    let k: i64 = kani::any();
+    let wide = |x: IntervalDayTime| (x.days as i128, x.milliseconds as i128);
+    let ((ad, am), (bd, bm)) = (wide(a), wide(b));
+    macro_rules! check {
+        ($r:expr, $d:expr, $m:expr) => {{
+            let (r, d, m) = (&$r, $d, $m);
+            let ok = fits32(d) && fits32(m);
+            match r {
+                Ok(v) => assert!(ok && v.days as i128 == d && v.milliseconds as i128 == m),
+                Err(_) => assert!(!ok && is_ovf(r)),
+            }
+            ok
+        }};
+    }
+    let rs = <IntervalDayTimeType as IntervalOp>::add(a, b);
+    let rd = <IntervalDayTimeType as IntervalOp>::sub(a, b);
+    let rp = <IntervalDayTimeType as IntervalOp>::mul_i64(a, k);
+    let ok_s = check!(rs, ad + bd, am + bm);
+    let ok_d = check!(rd, ad - bd, am - bm);
+    let ok_p = check!(rp, ad * k as i128, am * k as i128);
+    kani::cover!(ok_s && ad + bd < 0 && am + bm > 0);
+    kani::cover!(!ok_s && fits32(ad + bd));   // only the milliseconds field overflows
+    kani::cover!(!ok_s && fits32(am + bm));   // only the days field overflows
+    kani::cover!(!ok_d);
+    kani::cover!(ok_p && k > 1 && ad > 1 && am < -1);
+    kani::cover!(!ok_p && fits32(ad * k as i128));
+    std::mem::forget((rs, rd, rp));
+}
+
+// Contract (C12): IntervalMonthDayNanoType (months: i32, days: i32, nanoseconds: i64): add / sub are
+// field-wise exact: Ok <=> the exact months and days results fit i32 and the exact nanoseconds result
+// fits i64, and then every output field is the exact value; otherwise Err(ArithmeticOverflow).
+// @unit name=interval_mdn_addsub props=C12 kind=complete fns=IntervalOp<IntervalMonthDayNanoType>::add,IntervalOp<IntervalMonthDayNanoType>::sub tier=thorough was_quick=1 confirmed=0
+#[kani::proof]
+#[kani::stub(alloc::fmt::format, stub_format)]
+fn interval_mdn_addsub() {
+    let a = IntervalMonthDayNano::new(kani::any(), kani::any(), kani::any());
+    let b = IntervalMonthDayNano::new(kani::any(), kani::any(), kani::any());
+    let w = |x: IntervalMonthDayNano| (x.months as i128, x.days as i128, x.nanoseconds as i128);
+    let ((am, ad, an), (bm, bd, bn)) = (w(a), w(b));
+    let rs = <IntervalMonthDayNanoType as IntervalOp>::add(a, b);
+    let rd = <IntervalMonthDayNanoType as IntervalOp>::sub(a, b);
+    let ok_s = fits32(am + bm) && fits32(ad + bd) && fits64(an + bn);
+    match &rs {
+        Ok(v) => assert!(ok_s && w(*v) == (am + bm, ad + bd, an + bn)),
+        Err(_) => assert!(!ok_s && is_ovf(&rs)),
+    }
+    let ok_d = fits32(am - bm) && fits32(ad - bd) && fits64(an - bn);
+    match &rd {
+        Ok(v) => assert!(ok_d && w(*v) == (am - bm, ad - bd, an - bn)),
+        Err(_) => assert!(!ok_d && is_ovf(&rd)),
+    }
+    kani::cover!(ok_s && an + bn < 0 && am + bm > 0);
+    kani::cover!(!ok_s && fits32(am + bm) && fits32(ad + bd)); // only nanoseconds overflow
+    kani::cover!(!ok_s && fits64(an + bn) && fits32(am + bm)); // only days overflow
+    kani::cover!(!ok_d && fits64(an - bn) && fits32(ad - bd)); // only months overflow
+    std::mem::forget((rs, rd));
+}
+
+// Contract (C12): IntervalMonthDayNanoType::mul_i64(v, k): every field times k exactly (i128 product);
+// Ok <=> months*k and days*k fit i32 and nanoseconds*k fits i64, and then each output field is the
+// exact product; otherwise Err(ArithmeticOverflow).
+// @unit name=interval_mdn_mul props=C12 kind=complete fns=IntervalOp<IntervalMonthDayNanoType>::mul_i64 timeout=900 tier=thorough was_quick=1 confirmed=0
+#[kani::proof]
+#[kani::stub(alloc::fmt::format, stub_format)]
+fn interval_mdn_mul() {
+    let a = IntervalMonthDayNano::new(kani::any(), kani::any(), kani::any());
+    let k: i64 = kani::any();
+    let (pm, pd, pn) = (a.months as i128 * k as i128, a.days as i128 * k as i128, a.nanoseconds as i128 * k as i128);
+    let r = <IntervalMonthDayNanoType as IntervalOp>::mul_i64(a, k);
+    let ok = fits32(pm) && fits32(pd) && fits64(pn);
+    match &r {
+        Ok(v) => assert!(ok && v.months as i128 == pm && v.days as i128 == pd && v.nanoseconds as i128 == pn),
+        Err(_) => assert!(!ok && is_ovf(&r)),
+    }
+    kani::cover!(ok && k < -1 && pn > 1 && pm < -1);
+    kani::cover!(!ok && fits32(pm) && fits32(pd));
+    kani::cover!(!ok && fits64(pn) && fits32(pm));
+    std::mem::forget(r);
+}
